@@ -148,6 +148,7 @@ def gen_program(rng, family="core", nfn=None):
         "spec": ["plain"],
         "intern": ["plain", "plain"],
         "accum": ["plain", "plain", "noeq", "q2"],
+        "churn": ["plain", "plain", "q2"],
         "mixed": ["plain", "noeq", "lru", "q2"],
     }[family]
     base_ops = {
@@ -159,6 +160,7 @@ def gen_program(rng, family="core", nfn=None):
         "spec": ["in", "in", "call", "new", "new", "fld", "calls", "spec", "spec"],
         "intern": ["in", "in", "call", "intern", "intern", "rdint", "calli"],
         "accum": ["in", "in", "call", "call", "acc", "acc"],
+        "churn": ["in", "in", "in", "call", "intern", "intern", "rdint", "calli", "new", "fld", "calls"],
         "mixed": ["in", "in", "call", "call", "cell", "new", "fld", "calls", "intern", "rdint", "acc"],
     }[family]
     fns = [None] * nfn
@@ -175,7 +177,9 @@ def gen_program(rng, family="core", nfn=None):
             "nv": nv, "nin": nin, "ncell": ncell, "callees": callees, "ops": base_ops,
             "p_leaf": 0.2, "exports": exports,
             "sfams": [3, 3, 1] if family == "spec" else [1, 2],
-            "ikinds": [1, 1, 2, 3, 4] if family == "intern" else [1, 2, 3, 4],
+            "ikinds": [1, 1, 2, 3, 4] if family == "intern" else ([1, 1, 1, 2, 2, 3] if family == "churn" else [1, 2, 3, 4]),
+            "nint": 8 if family == "churn" else 3,
+            "nident": 3 if family == "churn" else 2,
         }
         tr = Tree()
         build(rng, spec, rng.choice([2, 3, 3, 4]), tr, {"nh": 0, "ni": 0})
@@ -212,8 +216,11 @@ def gen_history(rng, prog, nops, family="core"):
         w["get"] = 8
     if family in ("accum",):
         w["accum"] = 5
-    if family in ("struct", "spec", "mixed"):
+    if family in ("struct", "spec", "mixed", "churn"):
         w["gets"] = 3
+    if family == "churn":
+        w["set"] = 8
+        w["synth"] = 2
     if family == "dur":
         w["synth"] = 2
     ops = [k for k, v in w.items() for _ in range(v)]
